@@ -222,6 +222,21 @@ func runC08(c *wk.Ctx) {
 			st = newStack(scratch, nic)
 			nStacks++
 			setLogLevels(nStacks%2 == 0) // every second stack with the library's loggers at debug level
+			if nStacks%3 != 1 {
+				// two stacks in three are at work: some clients captured and hunted over ARP and ICMPv6, so that the handlers
+				// take the paths they take while spoofing (replies to hunted stations, loops woken by advertisements, the
+				// DHCP server answering captured clients from the other pool)
+				for k, m := range e.Clients {
+					if k%2 == nStacks%2 {
+						continue
+					}
+					mac := hw(m)
+					st.s.Capture(mac)
+					st.arp.StartHunt(packet.Addr{MAC: mac, IP: netip.AddrFrom4([4]byte{192, 168, 0, byte(100 + k)})})
+					st.icmp6.StartHunt(packet.Addr{MAC: mac, IP: netip.AddrFrom16([16]byte{0xfe, 0x80, 8: m[0] ^ 2, 9: m[1], 10: m[2], 11: 0xff, 12: 0xfe, 13: m[3], 14: m[4], 15: m[5]})})
+					c.Obs("stations_hunted_while_handlers_run", 1)
+				}
+			}
 		}
 		st.n++
 		ref := refdec.Decode(f.B)
@@ -247,7 +262,11 @@ func runC08(c *wk.Ctx) {
 		for len(st.s.C) > 0 {
 			<-st.s.C
 		}
-		if pi != nil || entry == "" {
+		if pi != nil {
+			st = nil // a handler that panicked may have died with its lock held: this stack is abandoned, not closed
+			return
+		}
+		if entry == "" {
 			return
 		}
 		outcome := "ok"
